@@ -365,9 +365,6 @@ func queryRoundCase(fc *fctx, in *instance, r *Run) ([]frontend.Variable, []*ref
 		// each extension equality is asserted coordinate-wise: (a0,b0) then (a1,b1)
 		refs = append(refs, c[0][0], c[1][0], c[0][1], c[1][1])
 	}
-	if len(outs) != len(refs) {
-		r.Infra("verifyQueryRound asserts %d consistency equalities, plonky2's round has %d", len(outs)/2, len(refs)/2)
-	}
 	return outs, refs
 }
 
